@@ -11,6 +11,7 @@ import (
 	"math/rand"
 	"os"
 	"runtime"
+	"slices"
 	"strings"
 	"testing"
 
@@ -24,7 +25,11 @@ func TestMain(m *testing.M) { vh.Quiet(); os.Exit(m.Run()) }
 const tagBase = 0x540000
 
 // message k with announced total length total (multiple of 8, >= 8): a Byte String item whose tag carries k
-func message(k, total int, fill byte) []byte {
+func message(k, total int, fill byte) []byte { return messageOf(k, total, fill, false) }
+
+// malformed: the item says it is a four-byte type (Integer, Enumeration, Interval) and announces another length: its extent on the
+// wire is still what the header announces
+func messageOf(k, total int, fill byte, malformed bool) []byte {
 	b := make([]byte, total)
 	tag := tagBase + k
 	b[0], b[1], b[2] = byte(tag>>16), byte(tag>>8), byte(tag)
@@ -36,6 +41,9 @@ func message(k, total int, fill byte) []byte {
 	binary.BigEndian.PutUint32(b[4:8], uint32(vlen))
 	for i := 8; i < 8+vlen; i++ {
 		b[i] = fill
+	}
+	if malformed {
+		b[3] = []byte{0x02, 0x05, 0x0A}[k%3]
 	}
 	return b
 }
@@ -127,6 +135,7 @@ type streamSpec struct {
 	A     []int
 	Trunc int
 	Max   int
+	Bad   []int // indices (from 1) of the malformed messages
 }
 
 func runStream(w *vh.Writer, s streamSpec, p *plan) {
@@ -138,7 +147,7 @@ func runStream(w *vh.Writer, s streamSpec, p *plan) {
 			data = append(data, m...)
 			break
 		}
-		data = append(data, message(k+1, a, byte(0xA0+k))...)
+		data = append(data, messageOf(k+1, a, byte(0xA0+k), slices.Contains(s.Bad, k+1))...)
 	}
 	total := 0
 	for _, a := range s.A {
@@ -151,7 +160,12 @@ func runStream(w *vh.Writer, s streamSpec, p *plan) {
 	if A == nil {
 		A = []int{}
 	}
-	w.Emit(map[string]any{"ev": "reset", "A": A, "trunc": len(data), "max": s.Max})
+	badIdx := s.Bad
+	if badIdx == nil {
+		badIdx = []int{}
+	}
+	w.Emit(map[string]any{"ev": "reset", "A": A, "trunc": len(data), "max": s.Max, "bad": badIdx})
+	frames := 0
 	c := &conn{data: data, plan: p, w: w}
 	maxArg := s.Max
 	if maxArg == 0 {
@@ -191,10 +205,16 @@ func runStream(w *vh.Writer, s streamSpec, p *plan) {
 				kind = "eof"
 			case ttlv.IsErrEncoding(err) && strings.Contains(err.Error(), "too big"):
 				kind = "toobig"
+			case ttlv.IsErrEncoding(err) && frames < len(s.A):
+				// a message that was received and could not be decoded: not a failure of the stream, the caller reads on
+				frames++
+				w.Emit(map[string]any{"ev": "recv", "res": "bad", "id": frames, "consumed": c.pos, "err": err.Error()})
+				continue
 			}
 			w.Emit(map[string]any{"ev": "recv", "res": "err", "kind": kind, "consumed": c.pos, "big": big, "alloc": alloc})
 			return
 		}
+		frames++
 		w.Emit(map[string]any{"ev": "recv", "res": "msg", "id": v.Tag - tagBase, "consumed": c.pos})
 	}
 }
@@ -246,6 +266,12 @@ func TestTrace(t *testing.T) {
 						continue
 					}
 					runStream(w, streamSpec{A: A, Trunc: tr, Max: mx}, p)
+					// the same with the first or the second message malformed (complete on the wire, not decodable)
+					if p.mode != 3 || p.fixed%5 == 0 {
+						for b := 1; b <= 2 && b <= len(A); b++ {
+							runStream(w, streamSpec{A: A, Trunc: tr, Max: mx, Bad: []int{b}}, p)
+						}
+					}
 				}
 			}
 		}
@@ -291,6 +317,12 @@ func TestTrace(t *testing.T) {
 		if r.Intn(2) == 0 {
 			tr = r.Intn(total + 1)
 		}
-		runStream(w, streamSpec{A: A, Trunc: tr, Max: []int{0, 0, 256, 720}[r.Intn(4)]}, &plan{r: r, mode: 0, eofMix: true})
+		var bad []int
+		for j := 1; j <= k; j++ {
+			if r.Intn(4) == 0 {
+				bad = append(bad, j)
+			}
+		}
+		runStream(w, streamSpec{A: A, Trunc: tr, Max: []int{0, 0, 256, 720}[r.Intn(4)], Bad: bad}, &plan{r: r, mode: 0, eofMix: true})
 	}
 }
